@@ -170,7 +170,13 @@ def lshift_simplifier(val, shift):
         return val
     if val.op == "__lshift__":
         real_val, inner_shift = val.args
-        return real_val << (inner_shift + shift)
+        # (x << a) << b == x << (a + b) only if a + b does not wrap around
+        if (
+            inner_shift.op == "BVV"
+            and shift.op == "BVV"
+            and inner_shift.args[0] + shift.args[0] < 2 ** shift.size()
+        ):
+            return real_val << (inner_shift + shift)
     return None
 
 
